@@ -172,7 +172,7 @@ def cases(c):
         for cplx in (0, 1):
             out.append({'fn': 'arma_estimate', 'N': N, 'P': P, 'Q': Q, 'lag': lag, 'cplx': cplx,
                         'kind': 'noise', 'directed': True})
-    n = 900 if c.tier == 'quick' else 48000
+    n = 900 if c.tier == 'quick' else 192000
     for i in range(n):
         N = int(rng.integers(16, 257 if i % 4 == 0 else 80))
         pql = draw_pql(rng, N, gen.pick(rng, ['lo', 'hi', None]))
@@ -180,13 +180,13 @@ def cases(c):
             continue
         out.append({'fn': 'arma_estimate', 'N': N, 'P': pql[0], 'Q': pql[1], 'lag': pql[2],
                     'cplx': int(rng.integers(0, 2)), 'kind': gen.pick(rng, KINDS), 'i': i})
-    for i in range(500 if c.tier == 'quick' else 24000):
+    for i in range(500 if c.tier == 'quick' else 96000):
         N = int(rng.integers(16, 257 if i % 4 == 0 else 80))
         M = int(rng.integers(2, min(N - 1, 40) + 1))
         Q = int(rng.integers(1, M))
         out.append({'fn': 'ma', 'N': N, 'Q': Q, 'M': M, 'cplx': int(rng.integers(0, 2)),
                     'kind': gen.pick(rng, KINDS), 'i': i})
-    for i in range(800 if c.tier == 'quick' else 36000):
+    for i in range(800 if c.tier == 'quick' else 144000):
         N = int(rng.integers(16, 129))
         cls = CLASSES[i % len(CLASSES)]
         d = {'fn': 'class', 'cls': cls, 'N': N, 'cplx': int(rng.integers(0, 2)), 'kind': gen.pick(rng, KINDS),
